@@ -703,3 +703,93 @@ func (p *Prog) GroundQuery(fn *ssa.Function, sp *spec.FuncSpec, clause *spec.Cla
 	sb.WriteString("(assert " + Not(t).S + ")\n(check-sat)\n")
 	return sb.String(), nil
 }
+
+// FlatField is one integer/boolean cell of a struct value reached through by-value fields only.
+type FlatField struct {
+	Path string // Go selector path below the struct (A.B.C)
+	Off  int64  // cell offset inside the struct
+	Heap string // name of the entry-state heap constant of the cell's kind (H0_...)
+	Post string // name of the heap constant used for the exit state by GroundQueryHeap
+	Bool bool
+}
+
+// FlatFields lists the scalar cells of struct type t (fields of other sorts are skipped: a replay
+// leaves them zero/nil).
+func (p *Prog) FlatFields(fn *ssa.Function, sp *spec.FuncSpec, t types.Type) []FlatField {
+	vc := p.newVC(fn, sp)
+	tt := vc.tt
+	var out []FlatField
+	var walk func(t types.Type, path string, off int64)
+	walk = func(t types.Type, path string, off int64) {
+		switch u := t.Underlying().(type) {
+		case *types.Struct:
+			for i := 0; i < u.NumFields(); i++ {
+				np := u.Field(i).Name()
+				if path != "" {
+					np = path + "." + np
+				}
+				walk(u.Field(i).Type(), np, off+tt.fieldOff(u, i))
+			}
+		case *types.Basic:
+			if isIntKind(u) || u.Info()&types.IsBoolean != 0 {
+				k := tt.kind(t)
+				out = append(out, FlatField{Path: path, Off: off, Heap: "H0_" + sanitize(k), Post: "H9_" + sanitize(k), Bool: u.Info()&types.IsBoolean != 0})
+			}
+		}
+	}
+	walk(t, "", 0)
+	return out
+}
+
+// HeapCell pins one cell of the entry (Post=false) or exit state of a ground query.
+type HeapCell struct {
+	Heap     string
+	Obj, Off int64
+	Val      string
+}
+
+// GroundQueryHeap is GroundQuery for functions whose parameters include pointers to structs of
+// scalars: the entry state is base 0, the exit state base 9, and the given cells are pinned to the
+// values of the model (entry) and to the values observed on the real code (exit).
+func (p *Prog) GroundQueryHeap(fn *ssa.Function, sp *spec.FuncSpec, clause *spec.Clause, paramVals, resultVals []Term, cells []HeapCell) (string, error) {
+	vc := p.newVC(fn, sp)
+	vc.cmd("(declare-const alloc0 Int)")
+	old := &State{H: map[string]Term{}, Alloc: Term{"alloc0", SInt}, Base: &base{id: "0"}}
+	st := &State{H: map[string]Term{}, Alloc: Term{"alloc0", SInt}, Base: &base{id: "9"}}
+	names := map[string]SV{}
+	for i, prm := range fn.Params {
+		if i < len(paramVals) {
+			names[prm.Name()] = SV{T: paramVals[i], Ty: prm.Type()}
+		}
+	}
+	bindResults(names, fn.Signature, sp, resultVals)
+	var pkg *types.Package
+	if fn.Pkg != nil {
+		pkg = fn.Pkg.Pkg
+	}
+	env := &Env{vc: vc, names: names, st: st, old: old, pkg: pkg}
+	t, err := env.evalBool(clause.E)
+	if err != nil {
+		return "", err
+	}
+	var sb strings.Builder
+	sb.WriteString(Prelude)
+	for _, d := range vc.sortDecls {
+		sb.WriteString(d + "\n")
+	}
+	for _, c := range vc.cmds {
+		sb.WriteString(c + "\n")
+	}
+	for _, c := range cells {
+		if !vc.heapDecl[c.Heap] {
+			continue // the clause does not read this heap
+		}
+		v := c.Val
+		if strings.HasPrefix(v, "-") {
+			v = "(- " + v[1:] + ")"
+		}
+		sb.WriteString(fmt.Sprintf("(assert (= (select (select %s %d) %d) %s))\n", c.Heap, c.Obj, c.Off, v))
+	}
+	sb.WriteString("(assert " + Not(t).S + ")\n(check-sat)\n")
+	return sb.String(), nil
+}
